@@ -419,6 +419,10 @@ func (m *MemDb) verifStripes() []*vsync.RWMutex {
 		switch {
 		case e.Type() == want:
 			out[i] = (*vsync.RWMutex)(e.UnsafePointer())
+		case e.Kind() == reflect.Struct && strings.HasSuffix(e.Type().PkgPath(), "verifrt/vatomic") && strings.HasPrefix(e.Type().Name(), "Pointer[") &&
+			e.NumField() == 1 && e.Field(0).Kind() == reflect.Struct && e.Field(0).FieldByName("v").IsValid() &&
+			e.Field(0).Type().Field(0).Type.Kind() == reflect.Array && e.Field(0).Type().Field(0).Type.Elem() == want:
+			out[i] = (*vsync.RWMutex)(e.Field(0).FieldByName("v").UnsafePointer())
 		case e.Kind() == reflect.Struct && e.Type().PkgPath() == "sync/atomic" && strings.HasPrefix(e.Type().Name(), "Pointer[") &&
 			e.NumField() > 0 && e.Type().Field(0).Type.Kind() == reflect.Array && e.Type().Field(0).Type.Elem() == want:
 			out[i] = (*vsync.RWMutex)(e.FieldByName("v").UnsafePointer())
@@ -686,6 +690,11 @@ func verifDeep(root any) string {
 				} else {
 					walk(reflect.NewAt(pt.Elem(), p))
 				}
+				return
+			}
+			if strings.HasSuffix(pp, "verifrt/vatomic") && t.NumField() == 1 {
+				// the shim's atomics wrap the real ones: walk into the wrapped value
+				walk(v.Field(0))
 				return
 			}
 			if strings.HasSuffix(pp, "sync") || strings.Contains(pp, "verifrt") || pp == "time" || pp == "context" {
